@@ -128,8 +128,8 @@ Proof.
   assert (Hd : disciplined (nodes W) (length (nodes s0)) = true) by congruence.
   assert (Hl : local_ok s0 W = true) by congruence.
   pose proof (wf_sound _ Hw) as WFW. destruct WFW as (PL & WB & WC).
-  destruct (local_ok_sound _ _ PL Hl) as [HL HE].
-  apply (order_edges_chain s0 l W T (conj PL (conj WB WC)) HE (disciplined_sound _ _ PL Hd) HL p);
+  destruct (local_ok_sound _ _ Hw Hl) as [HL HE].
+  apply (order_edges_chain s0 l W T (conj PL (conj WB WC)) HE (disciplined_sound _ _ Hw Hd) HL p);
     auto using is_region_linkable.
 Qed.
 Print Assumptions order_edges_total.
@@ -158,8 +158,8 @@ Proof.
   assert (Hd : disciplined (nodes W) (length (nodes s0)) = true) by congruence.
   assert (Hl : local_ok s0 W = true) by congruence.
   pose proof (wf_sound _ Hw) as WFW. destruct WFW as (PL & WB & WC).
-  destruct (local_ok_sound _ _ PL Hl) as [HL HE].
-  exact (region_in_parent_chain s0 l W T (conj PL (conj WB WC)) HE (disciplined_sound _ _ PL Hd) HL).
+  destruct (local_ok_sound _ _ Hw Hl) as [HL HE].
+  exact (region_in_parent_chain s0 l W T (conj PL (conj WB WC)) HE (disciplined_sound _ _ Hw Hd) HL).
 Qed.
 Print Assumptions order_edges_region_in_parent_chain.
 
